@@ -786,7 +786,7 @@ Proof. intros s. unfold read_slice. destruct (s_arr s); repeat (constructor; int
 Lemma wfree_rd_content : forall fuel a, wfree (@rd_content val fuel a).
 Proof.
   induction fuel; cbn; intros a; [constructor|]. constructor. intros c.
-  destruct c; try constructor. destruct r; [apply wfree_read_bytes|].
+  destruct c; try constructor. destruct r; [apply wfree_read_bytes | | constructor].
   apply wfree_bind; [apply IHfuel | intros; constructor].
 Qed.
 
@@ -820,6 +820,7 @@ Proof.
     eexists; split; [|exact I]. eapply step_write_rdr; eauto. reflexivity.
   - rewrite exec_wr, Hr, exec_ret in He. inversion He; subst.
     eexists; split; [|exact I]. eapply step_write_rdr; eauto. cbn; auto.
+  - rewrite exec_crash in He. inversion He; subst. exists tg; split; [apply step_refl; assumption | exact I].
 Qed.
 
 Lemma t_rd_seek_end : forall a, triple (rdr_at a) (rd_seek_end a) tt_post.
@@ -830,13 +831,20 @@ Proof.
     eexists; split; [|exact I]. eapply step_write_rdr; eauto. reflexivity.
   - rewrite exec_wr, Hr, exec_ret in He. inversion He; subst.
     eexists; split; [|exact I]. eapply step_write_rdr; eauto. cbn; auto.
+  - rewrite exec_crash in He. inversion He; subst. exists tg; split; [apply step_refl; assumption | exact I].
 Qed.
 
 Lemma t_rd_read : forall fuel a k, triple (rdr_at a) (rd_read fuel a k) tt_post.
 Proof.
   induction fuel; intros a k tg h ar o h' HI HP He; cbn [rd_read] in He; [crash0|].
   pose proof HP as [Ta [rd Hr]]. pose proof (step_refl _ _ HI) as S0.
-  rewrite exec_rd, Hr in He. destruct rd as [s pos | p ra base off lim].
+  rewrite exec_rd, Hr in He. destruct rd as [s pos | p ra base off lim | src off].
+  3:{ (* a cursor: reads the source's content, moves only itself *)
+      rewrite exec_bind in He.
+      destruct (exec ar (rd_content fuel src) h) as [[data|] h1] eqn:Eb;
+        pose proof (exec_wfree _ _ (wfree_rd_content fuel src) _ _ _ _ Eb); subst h1; [|crashS S0].
+      rewrite exec_wr, Hr, exec_ret in He. inversion He; subst.
+      eexists; split; [|exact I]. eapply step_write_rdr; eauto. reflexivity. }
   - rewrite exec_bind in He.
     destruct (exec ar (read_bytes s) h) as [[data|] h1] eqn:Eb;
       pose proof (exec_wfree _ _ (wfree_read_bytes s) _ _ _ _ Eb); subst h1; [|crashS S0].
@@ -867,6 +875,32 @@ Proof.
     + destruct S12; assumption.
     + apply (proj2 S12). assumption.
     + eapply rdr_eqv_trans; [apply rdr_eqv_sym; exact Eq2|]. cbn; auto.
+Qed.
+
+Lemma t_rd_seekw : forall fuel a off wh, triple (rdr_at a) (rd_seekw fuel a off wh) tt_post.
+Proof.
+  intros fuel a off wh tg h ar o h' HI [Ta [rd Hr]] He. unfold rd_seekw in He.
+  pose proof (step_refl _ _ HI) as S0.
+  rewrite exec_rd, Hr in He. destruct rd as [s pos | p ra base o0 lim | src o0].
+  - match type of He with context [if ?b then _ else _] => destruct b end; [doneS S0|].
+    rewrite exec_wr, Hr, exec_ret in He. inversion He; subst.
+    eexists; split; [|exact I]. eapply step_write_rdr; eauto. reflexivity.
+  - match type of He with context [if ?b then _ else _] => destruct b end; [doneS S0|].
+    rewrite exec_wr, Hr, exec_ret in He. inversion He; subst.
+    eexists; split; [|exact I]. eapply step_write_rdr; eauto. cbn; auto.
+  - destruct wh.
+    + match type of He with context [if ?b then _ else _] => destruct b end; [doneS S0|].
+      rewrite exec_wr, Hr, exec_ret in He. inversion He; subst.
+      eexists; split; [|exact I]. eapply step_write_rdr; eauto. reflexivity.
+    + match type of He with context [if ?b then _ else _] => destruct b end; [doneS S0|].
+      rewrite exec_wr, Hr, exec_ret in He. inversion He; subst.
+      eexists; split; [|exact I]. eapply step_write_rdr; eauto. reflexivity.
+    + rewrite exec_bind in He.
+      destruct (exec ar (rd_content fuel src) h) as [[data|] h1] eqn:Eb;
+        pose proof (exec_wfree _ _ (wfree_rd_content fuel src) _ _ _ _ Eb); subst h1; [|crashS S0].
+      match type of He with context [if ?b then _ else _] => destruct b end; [doneS S0|].
+      rewrite exec_wr, Hr, exec_ret in He. inversion He; subst.
+      eexists; split; [|exact I]. eapply step_write_rdr; eauto. reflexivity.
 Qed.
 
 Lemma t_stream_read : forall cf x, triple (rdr_at x) (stream_read cf x) tt_post.
